@@ -119,62 +119,95 @@ def rule_Z2(ctx: Ctx) -> None:
                   "input and target share one array: hiding the path in one erases it in the other")
 
 
-def _offset(sl: ast.AST) -> int | None:
-    "offset selected by a slice of an array padded by one on both sides: 1:-1 -> 0, 2: -> +1, :-2 -> -1"
-    f = N.slice_form(sl)
-    one, two, m1, m2 = (N.aff_key(N.affine(ast.Constant(k))) for k in (1, 2, -1, -2))
-    table = {("slice", one, m1, None): 0, ("slice", two, None, None): 1, ("slice", None, m2, None): -1}
-    return table.get(f)
+def _offset(sl: ast.AST, axis_len: list[str]) -> int | None:
+    """offset selected by a slice of an array padded by one on both sides: 1:-1 -> 0, 2: -> +1, :-2 -> -1, and the explicit forms
+    (1+d):(1+d+n) for the unpadded axis length n (given by its accepted spellings)"""
+    if not isinstance(sl, ast.Slice) or sl.step is not None:
+        return None
+    lo = N.affine(sl.lower) if sl.lower is not None else {}
+    lo_c = N.aff_const(lo)
+    if lo_c is None:
+        return None
+    lo_c = int(lo_c)
+    if sl.upper is None:
+        return 1 if lo_c == 2 else None
+    up = N.affine(sl.upper)
+    up_c = N.aff_const(up)
+    if up_c is not None:
+        return {(1, -1): 0, (0, -2): -1}.get((lo_c, int(up_c)))
+    # upper = lower + n
+    diff = N.aff_add(up, lo, -1)
+    if any(N.aff_eq(diff, X.expr_of(n_)) for n_ in axis_len) and lo_c in (0, 1, 2):
+        return lo_c - 1
+    return None
 
 
 def rule_Z3(ctx: Ctx) -> None:
+    """symbolic straight-line walk of _remove_isolated_cells (loops over constant offset tables unrolled, temporaries substituted):
+    the mask that is painted WALL is  ~wall & shifted(wall, each 4-neighbour offset)  on the one-pixel padded wall mask"""
+    from sa import dtable as DT
+
     f = ctx.index.func(f"{LM}._remove_isolated_cells")
     img = f.params()[0]
-    wm = X.assignments_to(f.node, "wall_mask")
-    ok_w = len(wm) == 1 and X.same_expr(wm[0], f"np.all({img}==PixelColors.WALL,axis=-1)")
-    pad = X.assignments_to(f.node, "padded_wall_mask")
-    ok_p = False
-    if len(pad) == 1 and isinstance(pad[0], ast.Call) and dotted_of(pad[0].func) == "np.pad":
-        pw = pad[0].args[1] if len(pad[0].args) > 1 else N.kwarg(pad[0], "pad_width")
-        cv = N.kwarg(pad[0], "constant_values")
-        ok_p = X.U(pad[0].args[0]) == "wall_mask" and X.U(pw).replace(" ", "") == "((1,1),(1,1))" and isinstance(cv, ast.Constant) and cv.value is True
-    ctx.judge(f, ok_w and ok_p, {"wall_mask": X.U(wm[0]) if wm else None, "padding": X.U(pad[0])[:100] if pad else None},
-              "walls = pixels equal to WALL; the mask is padded by one wall pixel on every side")
-    iso = X.assignments_to(f.node, "isolated_mask")
-    offs = set()
-    ok_shape = bool(iso)
-    if iso:
-        first = iso[0]
-        terms = []
-        def flat(e):
-            if isinstance(e, ast.BinOp) and isinstance(e.op, ast.BitAnd):
-                flat(e.left); flat(e.right)
+    rows = DT.table(f.node, {}, module_consts=f.module.assigns)
+    row = rows[0]
+    exp_w = "walls = pixels equal to WALL; the mask is padded by one wall pixel on every side"
+    if row["outcome"][0] == "unknown":
+        ctx.unknown(f, {"why": row["outcome"][1]}, exp_w)
+        return
+    stores = [e for e in row["effects"] if e[0] == "store" and e[2] == "PixelColors.WALL"]
+    if len(stores) != 1:
+        ctx.judge(f, False if not stores else None, {"stores_of_WALL": [e[1][:80] for e in stores]}, "exactly one masked store paints pixels WALL")
+        return
+    tgt = ast.parse(stores[0][1], mode="eval").body
+    base_ok = isinstance(tgt, ast.Subscript) and X.same_expr(tgt.value, f"{img}.copy()")
+    mask = tgt.slice if isinstance(tgt, ast.Subscript) else None
+    terms: list[ast.AST] = []
+
+    def flat(e):
+        if isinstance(e, ast.BinOp) and isinstance(e.op, ast.BitAnd):
+            flat(e.left)
+            flat(e.right)
+        elif isinstance(e, ast.Call) and dotted_of(e.func) in ("np.logical_and", "numpy.logical_and") and len(e.args) == 2:
+            flat(e.args[0])
+            flat(e.args[1])
+        else:
+            terms.append(e)
+    if mask is not None:
+        flat(mask)
+    wall = f"np.all({img} == PixelColors.WALL, axis=-1)"
+    wall_alt = f"({img} == PixelColors.WALL).all(axis=-1)"
+    offs, other, nonwall = [], [], 0
+    pads_ok = True
+    for t in terms:
+        if isinstance(t, ast.UnaryOp) and isinstance(t.op, ast.Invert) and X.same_expr(t.operand, wall, wall_alt):
+            nonwall += 1
+        elif isinstance(t, ast.Call) and dotted_of(t.func) in ("np.logical_not", "numpy.logical_not") and len(t.args) == 1 and X.same_expr(t.args[0], wall, wall_alt):
+            nonwall += 1
+        elif isinstance(t, ast.Subscript) and isinstance(t.value, ast.Call) and dotted_of(t.value.func) in ("np.pad", "numpy.pad"):
+            pc = t.value
+            pw = pc.args[1] if len(pc.args) > 1 else N.kwarg(pc, "pad_width")
+            cv = N.kwarg(pc, "constant_values")
+            if not (pc.args and X.same_expr(pc.args[0], wall, wall_alt) and pw is not None and X.U(pw).replace(" ", "") in ("((1,1),(1,1))", "1", "(1,1)")
+                    and isinstance(cv, ast.Constant) and cv.value is True):
+                pads_ok = False
+            p = N.subscript_parts(t)
+            n_rows = [f"len({wall})", f"len({wall_alt})", f"{wall}.shape[0]", f"{wall_alt}.shape[0]", f"len({img})", f"{img}.shape[0]"]
+            n_cols = [f"{wall}.shape[1]", f"{wall_alt}.shape[1]", f"{img}.shape[1]"]
+            o = (_offset(p[0], n_rows), _offset(p[1], n_cols)) if len(p) == 2 else None
+            if o is None or None in o:
+                other.append(X.U(t)[-60:])
             else:
-                terms.append(e)
-        flat(first)
-        for t in terms:
-            if isinstance(t, ast.Subscript) and X.U(t.value) == "padded_wall_mask":
-                p = N.subscript_parts(t)
-                o = (_offset(p[0]), _offset(p[1])) if len(p) == 2 else None
-                if o is None or None in o:
-                    ok_shape = False
-                else:
-                    offs.add(o)
-            else:
-                ok_shape = False
-    ctx.judge(f, ok_shape and offs == {(0, 1), (0, -1), (1, 0), (-1, 0)}, {"neighbour_offsets": sorted(offs)},
+                offs.append(o)
+        else:
+            other.append(X.U(t)[:60])
+    ctx.judge(f, pads_ok and bool(offs), {"conjuncts": len(terms), "padded_views": len(offs)}, exp_w)
+    ctx.judge(f, (not other) and sorted(offs) == sorted([(0, 1), (0, -1), (1, 0), (-1, 0)]), {"neighbour_offsets": sorted(offs), "other_conjuncts": other[:3]},
               "a pixel is isolated iff its four 4-neighbours (0,+-1), (+-1,0) are all wall",
               "diagonal or missing neighbours: cells with an open neighbour are walled up, or isolated ones kept")
-    second = iso[1] if len(iso) > 1 else None
-    ok2 = second is not None and X.U(second).replace(" ", "") in ("isolated_mask&non_wall_mask", "non_wall_mask&isolated_mask", "isolated_mask&~wall_mask")
-    nw = X.assignments_to(f.node, "non_wall_mask")
-    ok2 = ok2 and (not nw or X.U(nw[0]) == "~wall_mask")
-    out = X.assignments_to(f.node, "output_image")
-    st = [s for s in f.node.body if isinstance(s, ast.Assign) and X.U(s.targets[0]) == "output_image[isolated_mask]"]
-    ok3 = len(out) == 1 and X.U(out[0]) == f"{img}.copy()" and len(st) == 1 and X.U(st[0].value) == "PixelColors.WALL"
-    rets = X.returns_of(f.node)
-    ctx.judge(f, ok2 and ok3 and len(rets) == 1 and X.U(rets[0].value) == "output_image",
-              {"restrict": X.U(second) if second is not None else None, "output": X.U(out[0]) if out else None},
+    ret_ok = row["outcome"][0] == "return" and X.same_expr(row["outcome"][1], f"{img}.copy()")
+    ctx.judge(f, nonwall >= 1 and base_ok and ret_ok, {"non_wall_conjuncts": nonwall, "painted": X.U(tgt.value)[:60] if isinstance(tgt, ast.Subscript) else None,
+                                                       "returns": DT.outcome_str(row["outcome"])[:80]},
               "only non-wall pixels change, they become WALL, and the result is a copy (the argument is not modified)")
 
 
@@ -226,13 +259,29 @@ def rule_Z5(ctx: Ctx) -> None:
     ctx.judge(g, ok, {"call": X.U(call[0])[:200] if call else None}, "item i rasterizes self.mazes[i] with the three options taken from the config, each by its own name",
               "an option is crossed with another one / another maze is rendered")
     b = ctx.index.func(f"{RZ}.RasterizedMazeDataset.get_batch")
-    zz = [s for s in ast.walk(b.node) if isinstance(s, ast.Assign) and isinstance(s.value, ast.Call) and dotted_of(s.value.func) == "zip"]
-    ok = len(zz) == 1 and X.U(zz[0].targets[0]).replace(" ", "") in ("inputs,targets", "(inputs,targets)") and X.U(zz[0].value).replace(" ", "") == "zip(*[self[i]foriinidxs])"
-    rets = X.returns_of(b.node)
-    ok = ok and len(rets) == 1 and X.U(rets[0].value).replace(" ", "") == "torch.stack([torch.stack(inputs),torch.stack(targets)])"
-    none = [n for n in b.node.body if isinstance(n, ast.If) and X.U(n.test) == "idxs is None"]
-    ok = ok and len(none) == 1 and any(X.U(s).replace(" ", "") == "idxs=list(range(len(self)))" for s in none[0].body)
-    ctx.judge(b, ok, {"unzip": X.U(zz[0]) if zz else None, "returns": X.U(rets[0].value) if rets else None},
+    # abstract evaluation: the dataset has 3 symbolic items (in_i, tg_i); torch.stack is a symbolic constructor
+    from sa.absobj import AbstractClass
+    from sa.fold import EvalRaised, Obj, Unknown
+
+    ac = AbstractClass(ctx.index, f"{RZ}.RasterizedMazeDataset",
+                       extra_calls={"torch.stack": lambda xs, *a, **k: ("stack", list(xs))},
+                       len_of=lambda o: 3, getitem_of=lambda o, k: (f"in{k}", f"tg{k}") if o.cls == "self" else (_ for _ in ()).throw(Unknown("subscript")))
+    ac._len = ac._make_len()
+    cases = [([2, 0], [2, 0]), ([1], [1]), (None, [0, 1, 2]), ([0, 0, 2], [0, 0, 2])]
+    bad, unk = [], []
+    for idxs, order in cases:
+        want = ("stack", [("stack", [f"in{k}" for k in order]), ("stack", [f"tg{k}" for k in order])])
+        so = Obj("self", {"mazes": ["m0", "m1", "m2"]})
+        try:
+            got = ac.call(so, "get_batch", [idxs])
+        except EvalRaised as e:
+            got = f"raises {e.exc_name}"
+        except Unknown as e:
+            unk.append(str(e)[:120])
+            continue
+        if got != want:
+            bad.append({"idxs": idxs, "found": repr(got)[:160], "expected": repr(want)[:160]})
+    ctx.judge(b, False if bad else None if unk else True, {"cases": len(cases), "deviations": bad[:2], "undecided": unk[:2]},
               "a batch stacks the items of the requested indices in index order: [stack(inputs), stack(targets)]; None means all indices in order",
               "inputs and targets are swapped or items reordered in the batch")
 
